@@ -45,6 +45,37 @@ CHECKS = {
         text="fill_message_header / fill_group_header are steps of the encode script: for 9 header/dimension layouts (reordered, gaps, extra members, refs, uint8..64, counters) x 2 byte orders the bytes written (whole region incl. margins) and the returned header view are compared with the spec.",
         note="Same trusted base as C01.",
         design="5/C17"),
+    "C04": dict(
+        category="model_checking",
+        technique="TLC model checking of Cursor.tla (legality/landing table laws, level walk) + replay of every cursor-accessor transition into generated accessors with the assertion handler installed",
+        text="Every (level instance, cursor position, member, wrapper in plain/init/dont_move/init_dont_move/skip, get|set) transition on images incl. inflated block lengths is emitted by TLC with its legality, documented landing position and random-access result, and replayed: "
+             "returned value/view, cursor position, buffer bytes compared; calls the property lists as illegal must reach the assertion handler.",
+        note="Scope: view catalogue x seeded shapes; cursor positions = required position, +1, member start/end, level start/end, unset. Cursor ranges over groups are exercised by C19 (visit_children uses cursor_range) when built.",
+        design="5/C04, Appendix A"),
+    "C12": dict(
+        category="model_checking",
+        technique="TLC model checking of GroupIter.tla (iterator/container laws, digit arithmetic for type-boundary headers) + replay of every expression chain x 16 dimension type pairs + trace validation of random iterator walks (GroupIterTrace.tla)",
+        text="All 16 (numInGroup, blockLength) type pairs x N in 0..3 x wire BL in {0,1,4,6} x iterator expression chains of depth 2 (quick) / 3 (thorough), nested forward ranges, resize/clear frame, and header-only boundary vectors near 2^8..2^64; random iterator walks validated by the trace spec.",
+        note="Huge-header vectors form addresses beyond the buffer (never dereferenced; compared as integers). One known finding: difference_type = make_signed<size_type> (public typedef, not fixed).",
+        design="5/C12"),
+    "C08": dict(
+        category="model_checking",
+        technique="TLC model checking of Rules.tla/SchemaGen.tla (Break breaks the named rule, Boundary stays valid, Valid => NoOverlap /\\ MembersInsideBlock) + every TLC-generated schema mutant run through the real sbeppc",
+        text="25 named rules; every single rule-breaking edit and nearest valid edit at every applicable position of 6 (quick) / 21 (thorough) base schemas; verdict from TLC evaluating Valid on the mutated record vs exit status, located diagnostic, empty output dir of the real sbeppc; plus the repository's error corpus.",
+        note="Trusts TLC; decimal-string representability; references written in the exact case of the definition.",
+        design="5/C08"),
+    "C18": dict(
+        category="translation_validation",
+        technique="TLC evaluates ExpectedTraits(S) (Traits.tla over Sbe.tla layout); a generated TU prints the real trait table by named paths and by walking tag lists; per-(entity, trait) diff",
+        text="Every documented trait of every entity (835 entities quick / 1683 thorough), children tag lists in schema order, tag-kind predicates, value_type/traits_tag round trips, across schemas x compilers/standards.",
+        note="Traits on which the documentation is silent are left out (listed in DESIGN.md).",
+        design="5/C18"),
+    "C20": dict(
+        category="fault_enumeration",
+        technique="TLC model checking of Sbeppc.tla (process + I/O plan + single fault) + fault enumeration of the real sbeppc under an LD_PRELOAD shim, every run validated by SbeppcTrace.tla",
+        text="Every k-th mkdir/open/write (thorough: also close and input-file calls) of 3 schemas failing with ENOSPC/EACCES/EIO or writing short; trace (phase markers, syscalls, exit, diagnostic, on-disk state vs fault-free reference) validated against the spec; re-runs into fresh/populated/stale directories byte-identical.",
+        note="close() failures recorded, not alarmed (property does not list them). Shim interposes the libc calls libstdc++ makes on this system.",
+        design="5/C20"),
     "C13": dict(
         category="model_checking",
         technique="TLC model checking of DynArray.tla (vector semantics vs byte effect) + replay of every transition x 24 instantiations + trace validation of long random op sequences (DynArrayTrace.tla)",
@@ -95,7 +126,7 @@ def main():
         "hooks": {"guard": "SBEPP_VERIF",
                   "enable": "every compile done by ./verif (harness TUs and sbeppc) passes -DSBEPP_VERIF",
                   "baseline_off_cmd": "cmake --build /repo/_build && ctest --test-dir /repo/_build -j8 --timeout 900",
-                  "source_commits": [],
+                  "source_commits": ["ff7f16f"],
                   "add_only": True},
         "engines": [{"name": "tlc+harness", "path": "/verif/verif",
                      "serves_properties": sorted(CHECKS),
